@@ -577,6 +577,10 @@ struct Invocation {
         code = 0;
       } else {
         ExitStatus es = builder.Build(&err);
+        // add-only: the plan's bookkeeping as Build() left it (a `ps` line, printed when it changed since the last
+        // dump): the last FinishCommand / phony starts before the loop ended are otherwise unobserved.  Not after an
+        // interrupt: Cleanup() has dropped the running commands.
+        if (runner && err.find("interrupted by user") == string::npos) runner->DumpPlanState();
         code = (int)es;
         if (es != ExitSuccess && err.find("interrupted by user") != string::npos) code = 130;
         ev->push_back("ev exit " + std::to_string(code) + " " + hex(err));
